@@ -33,6 +33,9 @@ type Check struct {
 	Workers int
 	// QuickBudget / ThoroughBudget are internal deadlines in seconds (0 = defaults).
 	QuickBudget, ThoroughBudget int
+	// DeathIsViolation: an unrecoverable death of a worker (fatal error, signal) is attributed to the
+	// case last written with Ctx.Journal and reported as a violation (C01) instead of a harness error.
+	DeathIsViolation bool
 }
 
 var registry = map[string]*Check{}
@@ -85,6 +88,17 @@ type Ctx struct {
 	res      *ShardResult
 	runner   *panrun.Runner
 	mu       sync.Mutex
+	journal  *os.File
+}
+
+// Journal records (unbuffered) the case about to run, so that an unrecoverable death of this worker
+// can be attributed to it.
+func (c *Ctx) Journal(line string) {
+	if c.journal == nil {
+		return
+	}
+	c.journal.Truncate(0)
+	c.journal.WriteAt([]byte(line), 0)
 }
 
 // Thorough reports whether the thorough tier was requested.
@@ -316,6 +330,9 @@ func worker(args []string) int {
 	of, _ := strconv.Atoi(fl["of"])
 	dl, _ := strconv.ParseInt(fl["deadline"], 10, 64)
 	ctx := &Ctx{Tier: fl["tier"], Shard: shard, NShards: of, Seed: seed(), Deadline: time.Unix(dl, 0), res: newResult()}
+	if j := fl["journal"]; j != "" {
+		ctx.journal, _ = os.Create(j)
+	}
 	ch.Run(ctx)
 	b, err := json.Marshal(ctx.res)
 	if err != nil {
@@ -381,8 +398,9 @@ func supervise(args []string) int {
 			defer wg.Done()
 			outf := filepath.Join(scratch, fmt.Sprintf("%s.shard%d.json", id, i))
 			os.Remove(outf)
+			jf := filepath.Join(scratch, fmt.Sprintf("%s.shard%d.journal", id, i))
 			cmd := exec.Command(self, "worker", id, "--tier", tier, "--shard", strconv.Itoa(i), "--of", strconv.Itoa(n),
-				"--out", outf, "--deadline", strconv.FormatInt(deadline.Unix(), 10))
+				"--out", outf, "--deadline", strconv.FormatInt(deadline.Unix(), 10), "--journal", jf)
 			cmd.Env = append(os.Environ(), "GOMAXPROCS=2")
 			errf := filepath.Join(scratch, fmt.Sprintf("%s.shard%d.stderr", id, i))
 			ef, _ := os.Create(errf)
@@ -396,6 +414,11 @@ func supervise(args []string) int {
 				tail := string(eb)
 				if len(tail) > 3000 {
 					tail = tail[:1500] + "\n...\n" + tail[len(tail)-1500:]
+				}
+				if ch.DeathIsViolation {
+					jb, _ := os.ReadFile(jf)
+					results[i] = wres{r: deathResult(string(jb), string(eb), i)}
+					return
 				}
 				results[i] = wres{err: fmt.Sprintf("worker %d: %v %v\n%s", i, err, rerr, tail)}
 				return
@@ -418,6 +441,31 @@ func supervise(args []string) int {
 		merge(total, w.r)
 	}
 	return finish(ch, tier, total, time.Since(start), n)
+}
+
+// deathResult turns an unrecoverable worker death into a result with one violation (or a discard
+// when the runtime says the program ran out of memory / stack, which the property excludes).
+func deathResult(journal, stderr string, shard int) *ShardResult {
+	r := newResult()
+	r.Incomplete = append(r.Incomplete, fmt.Sprintf("worker %d died; the rest of its shard was not explored", shard))
+	reason := "unknown"
+	for _, ln := range strings.Split(stderr, "\n") {
+		if strings.HasPrefix(ln, "fatal error:") || strings.HasPrefix(ln, "panic:") || strings.Contains(ln, "SIGSEGV") || strings.HasPrefix(ln, "runtime:") {
+			reason = strings.TrimSpace(ln)
+			break
+		}
+	}
+	if strings.Contains(stderr, "out of memory") || strings.Contains(stderr, "stack exceeds") || strings.Contains(stderr, "cannot allocate memory") {
+		r.Discarded++
+		r.Counters["worker_deaths_discarded(memory/stack proviso)"]++
+		return r
+	}
+	key := "worker-death/" + oneLine(reason, 80)
+	v := Violation{Key: key, Case: JSON(map[string]string{"journal": journal}), Desc: "interpreter process died while running: " + oneLine(journal, 300), Expected: "a value, a Pangaea error or a syntax error", Observed: reason}
+	r.VioCount[key] = 1
+	r.Violations[key] = []Violation{v}
+	r.Evaluations = 1
+	return r
 }
 
 func merge(t, r *ShardResult) {
